@@ -19,6 +19,10 @@ theorem steps_eq : optSteps = [.initialParse, .readConfig, .applyKnown, .applyEn
 theorem cmds_ok : ∀ cmd ∈ optCommands, cmd.setDefaults = true ∧ cmd.parents = true ∧ cmd.parentGroupsKept = true := by
   decide
 
+/-- the extractor recognised the shape of `Config.apply_known`, the plug-in ran, the sub-command is mandatory -/
+theorem extraction_ok : optApplyKnownRecognised = true ∧ optionsSectionOk = true ∧ optSubcommandRequired = true := by
+  decide
+
 /-- type functions whose result is never a `str` (tuple, Path, int, bytes, bool) -/
 def nonStrTy : OptTy → Bool
   | .parseRepository | .path | .naturalNumberCfg | .readBytesCfg | .strEncode | .checkBoolean
